@@ -20,8 +20,8 @@ REGISTRY = {
     "C06": ("model_checking", ["layout", "saturation"]),
     "C07": ("model_checking", ["sizing", "scale", "construct"]),
     "C08": ("model_checking", ["bloomfam", "cuckoo", "scale", "repotests", "proofs"]),
-    "C09": ("model_checking", ["expanding", "scale", "repotests"]),
-    "C10": ("model_checking", ["expanding", "scale", "repotests"]),
+    "C09": ("model_checking", ["expanding", "scale", "repotests", "proofs"]),
+    "C10": ("model_checking", ["expanding", "scale", "repotests", "proofs"]),
     "C11": ("fault_enumeration", ["ondisk", "scale"]),
     "C12": ("model_checking", ["bloomfam", "countmin", "scale", "saturation"]),
     "C13": ("model_checking", ["bloomfam", "countmin", "compat", "saturation", "scale"]),
